@@ -79,6 +79,7 @@ int main(int argc, char **argv) {
     else if (strcmp(dom, "errstr") == 0) dom_errstr();
     else if (strcmp(dom, "expr") == 0) dom_expr();
     else if (strcmp(dom, "buffmt") == 0) dom_buffmt();
+    else if (strcmp(dom, "roundtrip") == 0) dom_roundtrip();
     else if (strcmp(dom, "p01") == 0) dom_p01();
     else if (strcmp(dom, "p02") == 0) dom_p02();
     else if (strcmp(dom, "p04") == 0) dom_p04();
